@@ -140,7 +140,12 @@ func malformChain(r *lib.Rng, c *c01case) string {
 			}
 		case 4:
 			// a Parallel right after a Parallel / Branch (if there is none: two new Parallels in front)
+			asBranch := r.Chance(1, 2)
 			mk := func(k uint64, ok uint64) gg.Stage {
+				if asBranch {
+					return gg.Stage{Kind: "branch", Single: true, Table: [][]uint64{{k}, {k + 1}}, Nodes: []gg.StageNode{
+						{Key: k, Kind: "lambda"}, {Key: k + 1, Kind: "lambda"}}}
+				}
 				return gg.Stage{Kind: "par", Nodes: []gg.StageNode{
 					{Key: k, Kind: "lambda", OutKey: ok}, {Key: k + 1, Kind: "lambda", OutKey: ok + 1}}}
 			}
@@ -151,6 +156,9 @@ func malformChain(r *lib.Rng, c *c01case) string {
 				g.Stages = append(ns, g.Stages[at:]...)
 			} else {
 				g.Stages = append([]gg.Stage{mk(maxKey+1, 1600), mk(maxKey+3, 1602)}, g.Stages...)
+			}
+			if asBranch {
+				return "branch-after-several-nodes"
 			}
 			return "parallel-after-several-nodes"
 		case 5:
